@@ -50,8 +50,8 @@ func specs() map[string]*spec {
 		Assumptions: []string{"ref/tlschema (parser self-validated: canonical-line CRC-32 equals the written id on every line)", "bridge maps i-th non-flags parameter to i-th struct field; id->type from the registry export (H1)"},
 	})
 	add(&spec{ID: "C13", Level: "exploration", Exhaustive: true,
-		WLs: []wlSpec{{Name: "c13static", Shards: 4, TimeoutS: 300}},
-		Rule: "finite space enumerated completely: every definition of schemes/api_latest.tl and every id-bearing definition of mtproto.tl (wire-used ones strictly) compared with its registered Go type by reflection (id = CRC() = CRC-32 of the canonical line; field kinds positionally; tag bit; encoded_in_bitflags; FlagIndex), every registered id looked up in the schemas, the hand-written wrappers found by a source scan; distinct = distinct definition / registered id / wrapper",
+		WLs: []wlSpec{{Name: "c13static", Shards: 4, TimeoutS: 300}, {Name: "c13dyn", Race: true, Shards: 1, TimeoutS: 1200}},
+		Rule: "finite space enumerated completely: every definition of schemes/api_latest.tl and every id-bearing definition of mtproto.tl (wire-used ones strictly) compared with its registered Go type by reflection (id = CRC() = CRC-32 of the canonical line; field kinds positionally; tag bit; encoded_in_bitflags; FlagIndex), every registered id looked up in the schemas, the hand-written wrappers found by a source scan; dynamic half: EVERY generated method of *telegram.Client (list from a go/parser scan of methods_gen.go) is invoked by reflection with type-directed arguments against the reference server, which decodes the request with the schema decoder (the constructor id identifies the schema function), compares arguments positionally, answers with a schema-generated value of the declared result type and the returned value is matched; each function id must come from exactly one method; distinct = distinct definition / registered id / wrapper / (method, repetition)",
 		Assumptions: []string{"ref/tlschema parser (self-validated by CRC on every line)", "registry export H1"},
 	})
 	add(&spec{ID: "C01", Level: "exploration",
